@@ -168,6 +168,9 @@ def _run_tlc(workdir, module, *, cfg=None, workers=None, dump=False, coverage=Tr
         r.violated, r.kind = m2.group(1).rstrip("."), "action_property"
     if "Error: Deadlock reached" in out and not r.violated:
         r.violated, r.kind = "Deadlock", "deadlock"
+    m3 = re.search(r"Error: Temporal property (\S+) was violated", out)
+    if m3 and not r.violated:
+        r.violated, r.kind = m3.group(1).rstrip("."), "temporal"
     if "Temporal properties were violated" in out and not r.violated:
         r.violated, r.kind = "Temporal", "temporal"
     if re.search(r"Error: The postcondition|POSTCONDITION.*(violated|false)", out, re.I) and not r.violated:
